@@ -23,6 +23,7 @@ const Prelude = `(set-option :produce-models true)
 (declare-fun sconcat (Str Str) Str)
 (declare-fun ityp (Int) Int)
 (declare-fun iref (Int) Int)
+(declare-fun faddr (Int Int) Int)
 (declare-fun ttype (Int) Int)
 (declare-fun atype (Int) Int)
 (declare-fun istr (Int) Str)
